@@ -849,4 +849,3 @@ package bbolt
 
 //@ F [compact.src.readonly] props C15 : noreach bbolt.walk* : bbolt.(*Bucket).Put, bbolt.(*Bucket).Delete, bbolt.(*Bucket).CreateBucket, bbolt.(*Bucket).CreateBucketIfNotExists, bbolt.(*Bucket).DeleteBucket, bbolt.(*Bucket).MoveBucket, bbolt.(*Bucket).SetSequence, bbolt.(*Bucket).NextSequence, bbolt.(*DB).Update, bbolt.(*DB).Batch, bbolt.(*Tx).Commit, bbolt.(*Cursor).Delete
 //@ F [compact.src.view] props C15 : callers bbolt.walkBucket subset bbolt.walk, bbolt.walkBucket
-//@ F [compact.finalcommit] props C15 : callers bbolt.Compact$2 subset bbolt.Compact
